@@ -23,17 +23,24 @@ RULE = (
     "or scanning lower bound) AND the instance needs >= 2 routes or has a positive objective; distinct = case hash."
 )
 ASSUMPTIONS = ["inputs satisfy the model's documented assumptions (planted routes; every edge on a source-sink route)"]
-BUDGET = {"quick": {"examples": 900, "deadline_s": 110}, "thorough": {"examples": 14000, "deadline_s": 900}}
+BUDGET = {"quick": {"examples": 1000, "deadline_s": 110}, "thorough": {"examples": 14000, "deadline_s": 900}}
 
 
 @st.composite
 def strategy_(draw, tier):
     big = tier == "thorough"
-    case = draw(gen.model_cases(max_nodes=7 if big else 6, p_opts=0, p_constr=2, p_ignore=5, p_se=5, p_node=5, k_slack=1, p_len=3, p_wild=4))
+    focus = draw(st.integers(0, 2)) == 0
+    if focus:
+        # focus class: DAG models with user constraints (count-, length-based or 'wild'), where safety information and constraints are
+        # turned into each other by class-specific code
+        case = draw(gen.model_cases(classes=["kLeastAbsErrors", "kMinPathError", "kFlowDecomp", "MinFlowDecomp", "kLeastAbsErrors", "kPathCover", "MinPathCover"],
+                                    max_nodes=7 if big else 6, p_opts=0, p_constr=1, p_ignore=6, p_se=6, p_node=6, k_slack=1, p_len=2, p_wild=3, p_hub=3))
+    else:
+        case = draw(gen.model_cases(max_nodes=7 if big else 6, p_opts=0, p_constr=2, p_ignore=5, p_se=5, p_node=5, k_slack=1, p_len=3, p_wild=4))
     cls = case["cls"]
     variant = draw(gen.option_dicts(cls, mode=draw(st.sampled_from(["single", "single", "single", "random", "random", "all_on", "default"]))))
     ckey = "subset_constraints" if cls in CYC_CLASSES else "subpath_constraints"
-    if case["kw"].get(ckey) and draw(st.booleans()):
+    if case["kw"].get(ckey) and (focus or draw(st.booleans())):
         # flags that turn safety information / constraints into (additional) constraints interact with the user's constraints:
         # exercise them together, with the MILP really built
         if cls in CYC_CLASSES:
